@@ -20,6 +20,13 @@ TEXT = {
     },
 }
 
+TEXT["C17"] = {
+    "technique": "property-based testing (rapid) + exhaustive BMP/special-triple sweep + native fuzzing; round-trip through independent decoders and reference implementations",
+    "text": "Each of the nine escaping filters is applied, through ApplyFilter and through template syntax (both must agree), to generated strings and to an exhaustive sweep (every BMP scalar as a 1-rune string; all strings up to length 3 over 11 specials). Oracle per filter in both directions: forbidden characters absent, and an independent decoder (HTML entity, JS \\uXXXX incl. surrogate pairs, query decoding) or reference implementation (iriencode, addslashes, striptags, removetags) reproduces the input / expected text. Exploration-level assurance.",
+    "note": "Trusted: the small reference decoders in harness/props/c17_test.go. escapejs' pinned treatment of the two-character sequences \\n, \\r and of invalid UTF-8 is accepted as specified behaviour.",
+    "design_ref": "DESIGN.md section 3, C17",
+}
+
 PENDING_REASON = "check not built yet in this build phase (DESIGN.md section 3 describes the planned PBT check); will be claimed once its quick tier is silent on the unchanged tree and kills its mutants"
 
 
